@@ -5,7 +5,9 @@ use crate::refsem::{self, Env, G};
 use crate::sym::{Inp, Src};
 use crate::{check, contract, cover};
 
-/// smoke: sp(sp(t0 t1) | sp(t2 sp(t3?))) sp(any)
+/// @harness props=C01:Q n=3 err=Cheap
+/// @shape <(<(t0 t1)>#1 | <(t2 <t3?>)>#2)> <any>
+/// @aims end-to-end smoke of the refsem-vs-chumsky mechanism
 pub fn smoke_body<S: Src>(s: &mut S) {
     let t = [s.u8(), s.u8(), s.u8(), s.u8()];
     let inp = Inp::<3>::any(s);
@@ -36,7 +38,9 @@ pub fn smoke_body<S: Src>(s: &mut S) {
     let _ = Tr::unit();
 }
 
-/// Runner self-test: this harness MUST fail (and its counterexample must replay natively).
+/// @harness props=SELFTEST:Q n=2 err=Cheap expect_fail=1
+/// @shape (t0 t0) must never accept — deliberately false
+/// @aims runner self-test: failure path, playback extraction, native replay
 pub fn selftest_fail_body<S: Src>(s: &mut S) {
     let t = [s.u8()];
     let inp = Inp::<2>::any(s);
